@@ -102,6 +102,7 @@ func c05Run(c c05Case) *vlib.Failure {
 			}
 		}
 	}
+	m.flushedLeaf = nil
 	m.flushed, m.allocs, m.failAt, m.failErr = nil, 0, c.FailAt, nil
 	m.tempFail = c.TempFail
 	var err *kernel.Error
